@@ -847,6 +847,18 @@ func (c *Ctx) tok13() {
 					}
 				}
 			}
+			// a removed callback must be answered on every return (unless nil)
+			if p.End == pathx.KReturn {
+				isNil := false
+				if rel, _, k := p.Known(done, ends[0], -1); k && rel == pathx.RNil {
+					isNil = true
+				}
+				answered := p.Index(ends[0], func(x *pathx.Event) bool { return (x.Kind == pathx.KSend || x.Kind == pathx.KClose) && x.Chan == done }) >= 0
+				if !isNil && !answered {
+					ok = false
+					a.fail(p, len(p.Events)-1, "the callback was taken out of the registry but is neither answered nor closed on this return: breakAll no longer knows it, so its caller waits until quit")
+				}
+			}
 			if ok {
 				a.pass()
 			}
